@@ -250,6 +250,9 @@ func (w *WWorld) Connect(slot int) {
 	}
 	cfg.Header.Set("posemesh-client-id", c.clientID)
 	cfg.Header.Set("User-Agent", "verif")
+	if k := appKeyOf(slot); k != "" {
+		cfg.Header.Set("Authorization", "Bearer "+appKeyToken(k))
+	}
 	ws, err := websocket.NewClient(cfg, cli)
 	if err != nil {
 		panic(fmt.Sprintf("websocket handshake failed: %v", err))
